@@ -300,11 +300,17 @@ class Run:
             n = cs["n"]; fail = self.cur["fail"]; iterfail = self.cur["iterfail"]
 
             def task(i, c):
+                # n_jobs == 1: joblib runs the tasks in the caller, one at a time, without any backend: in the vocabulary of
+                # the contract the caller dispatches the one-task batch when it starts it and completes it when it ends
+                seq = nj == 1
+                if seq: R.ev(ev="Submit", c=c, lo=i, hi=i + 1)
                 R.ev(ev="TStart", c=c, i=i)
                 if i in set(cfg["calls"][c].get("fail", ())):
                     R.ev(ev="TEnd", c=c, i=i, ok=False)
+                    if seq: R.ev(ev="CbEnd", c=c, lo=i, hi=i + 1, ok=False)
                     raise TaskError(c, i)
                 R.ev(ev="TEnd", c=c, i=i, ok=True)
+                if seq: R.ev(ev="CbEnd", c=c, lo=i, hi=i + 1, ok=True)
                 return (c, i)
 
             class It:
